@@ -35,6 +35,10 @@ const (
 	kkSame  = -100
 	kkRot7  = -107
 	kkRot13 = -113
+	// raw context errors handed over as the TARGET of a wrap (the kind given is then cancelled / timeout)
+	kkRawCanceled        = 1000
+	kkRawDeadline        = 1001
+	kkWrappedRawCanceled = 1002
 )
 
 type variant struct {
@@ -101,6 +105,13 @@ func buildVariants(allKinds bool) []variant {
 		}
 		if isFormatFn(fn) {
 			v = append(v, variant{Fn: fn, Role: "orig", Kind: kkRot7, Fmt: 0}, variant{Fn: fn, Role: "orig", Kind: kkRot7, Fmt: 2})
+		}
+		for _, k := range []int{kkRawCanceled, kkRawDeadline, kkWrappedRawCanceled} {
+			f := 0
+			if isFormatFn(fn) {
+				f = 1
+			}
+			v = append(v, variant{Fn: fn, Role: "orig", Kind: k, Fmt: f})
 		}
 	}
 	return v
